@@ -19,6 +19,16 @@ theorem foldlM_proj {α β γ : Type} (proj : α → γ) (f : α → β → Out 
     rw [h a b a1 (by simp) e1]
     exact ih (fun a b a' hb => h a b a' (by simp [hb])) a1 a' e2
 
+theorem foldlM_keeps {α β γ : Type} (proj : α → γ) (f : α → β → Out α) (l : List β)
+    (h : ∀ a b a', b ∈ l → f a b = .ok a' → proj a' = proj a) : ∀ a a', l.foldlM f a = .ok a' → proj a' = proj a := by
+  induction l with
+  | nil => intro a a' e; simp only [List.foldlM_nil] at e; cases e; rfl
+  | cons b bs ih =>
+    intro a a' e
+    rw [List.foldlM_cons] at e
+    obtain ⟨a1, e1, e2⟩ := out_bind_ok _ _ _ e
+    rw [ih (fun a b a' hb => h a b a' (by simp [hb])) a1 a' e2, h a b a1 (by simp) e1]
+
 /-- the vector of the 8x8 luma block at (sx, sy) ∈ {0,1}² inside a macroblock -/
 def mvSel (mv : Mv4) (sx sy : Nat) : Mv :=
   if sy = 0 then (if sx = 0 then mv.1 else mv.2.1) else (if sx = 0 then mv.2.2.1 else mv.2.2.2)
@@ -185,7 +195,8 @@ theorem gather_pointwise (types : Array MbType) (r : DecPic) (mvs : Array Mv4) (
     (h : gather types (some r) mvs m pic = .ok pic') :
     (pic'.luma.size = r.luma.size ∧ ∀ k, pic'.luma.getD k 0 = lumaAt types r mvs m w pic.luma k) ∧
     (pic'.cb.size = r.cb.size ∧ ∀ k, pic'.cb.getD k 0 = chromaAt types r.cb r.chromaSpr mvs m pic.cb k) ∧
-    (pic'.cr.size = r.cr.size ∧ ∀ k, pic'.cr.getD k 0 = chromaAt types r.cr r.chromaSpr mvs m pic.cr k) := by
+    (pic'.cr.size = r.cr.size ∧ ∀ k, pic'.cr.getD k 0 = chromaAt types r.cr r.chromaSpr mvs m pic.cr k) ∧
+    pic'.chromaSpr = pic.chromaSpr := by
   unfold gather at h
   -- what one step does to each plane
   have hstep : ∀ (a : DecPic) (i : Nat) (a' : DecPic),
@@ -214,7 +225,7 @@ theorem gather_pointwise (types : Array MbType) (r : DecPic) (mvs : Array Mv4) (
             pure { a with luma := l, cb := b, cr := c }
       else .ok a : Out DecPic) = .ok a' →
       lumaStep types r mvs m w i a.luma = .ok a'.luma ∧ chromaStep types r.cb r.chromaSpr mvs m i a.cb = .ok a'.cb ∧
-        chromaStep types r.cr r.chromaSpr mvs m i a.cr = .ok a'.cr := by
+        chromaStep types r.cr r.chromaSpr mvs m i a.cr = .ok a'.cr ∧ a'.chromaSpr = a.chromaSpr := by
     intro a i a' e
     unfold lumaStep chromaStep
     cases hin : (types.getD i .inter).isInter with
@@ -222,7 +233,7 @@ theorem gather_pointwise (types : Array MbType) (r : DecPic) (mvs : Array Mv4) (
       rw [hin] at e
       simp only [Bool.false_eq_true, ↓reduceIte, Out.ok.injEq] at e
       subst e
-      exact ⟨rfl, rfl, rfl⟩
+      exact ⟨rfl, rfl, rfl, rfl⟩
     | true =>
       rw [hin] at e
       simp only [↓reduceIte] at e ⊢
@@ -238,7 +249,7 @@ theorem gather_pointwise (types : Array MbType) (r : DecPic) (mvs : Array Mv4) (
         obtain ⟨b1, e5, e⟩ := out_bind_ok _ _ _ e
         obtain ⟨c1, e6, e⟩ := out_bind_ok _ _ _ e
         cases e
-        refine ⟨?_, e5, e6⟩
+        refine ⟨?_, e5, e6, rfl⟩
         show (gatherBlock _ _ _ _ a.luma >>= fun l => gatherBlock _ _ _ _ l >>= fun l => gatherBlock _ _ _ _ l >>= fun l => gatherBlock _ _ _ _ l) = _
         rw [e1]; simp only [Out.bind_ok]
         rw [e2]; simp only [Out.bind_ok]
@@ -246,8 +257,9 @@ theorem gather_pointwise (types : Array MbType) (r : DecPic) (mvs : Array Mv4) (
         exact e4
   have hL := foldlM_proj (·.luma) _ (fun t i => lumaStep types r mvs m w i t) _ (fun a b a' _ e => (hstep a b a' e).1) pic pic' h
   have hB := foldlM_proj (·.cb) _ (fun t i => chromaStep types r.cb r.chromaSpr mvs m i t) _ (fun a b a' _ e => (hstep a b a' e).2.1) pic pic' h
-  have hR := foldlM_proj (·.cr) _ (fun t i => chromaStep types r.cr r.chromaSpr mvs m i t) _ (fun a b a' _ e => (hstep a b a' e).2.2) pic pic' h
-  refine ⟨?_, ?_, ?_⟩
+  have hR := foldlM_proj (·.cr) _ (fun t i => chromaStep types r.cr r.chromaSpr mvs m i t) _ (fun a b a' _ e => (hstep a b a' e).2.2.1) pic pic' h
+  have hK := foldlM_keeps (·.chromaSpr) _ _ (fun a b a' _ e => (hstep a b a' e).2.2.2) pic pic' h
+  refine ⟨?_, ?_, ?_, hK⟩
   · exact plane_fold r.luma.size w m 16 _ hm (fun i => (types.getD i .inter).isInter)
       (fun i k => predSample r.luma w (mvSel (mvs.getD i zeroMv4) (k % w % 16 / 8) (k / w % 16 / 8)) k)
       (fun i t => lumaStep types r mvs m w i t) (fun i t ht => lumaStep_spec types r mvs m w hw i t ht) pic.luma pic'.luma hl hL
